@@ -551,6 +551,11 @@ func Calls(fn *ssa.Function, pat string) []ssa.CallInstruction {
 func Returns(fn *ssa.Function) []*ssa.Return {
 	var out []*ssa.Return
 	for _, b := range fn.Blocks {
+		// the synthetic block a recovered panic resumes in (functions with a defer) is not an exit
+		// the source wrote; it returns the result cells as they are
+		if b == fn.Recover {
+			continue
+		}
 		for _, in := range b.Instrs {
 			if r, ok := in.(*ssa.Return); ok {
 				out = append(out, r)
